@@ -38,13 +38,25 @@ pub fn canon_mvreg_b(b: &Value) -> Value {
 }
 
 pub fn mvreg_reads(s: &S, d: &Dims) -> Value {
+    mvreg_reads_opt(s, d, true)
+}
+
+pub fn mvreg_reads_opt(s: &S, d: &Dims, full: bool) -> Value {
     let r = s.read();
     let mut val: Vec<u64> = r.val.iter().map(|x| *x as u64).collect();
     val.sort();
     let rc = s.read_ctx();
+    let mut derived = vec![];
+    for a in 1..=(if full { d.n } else { 0 }) {
+        let c1 = s.read().derive_add_ctx(a as u8);
+        let c2 = s.read_ctx().derive_add_ctx(a as u8);
+        derived.push(json!({"read": [c1.dot.actor, c1.dot.counter, clock_json(&c1.clock, d.n)],
+                            "read_ctx": [c2.dot.actor, c2.dot.counter, clock_json(&c2.clock, d.n)]}));
+    }
     json!({
         "read": {"val": val, "add": clock_json(&r.add_clock, d.n), "rm": clock_json(&r.rm_clock, d.n)},
         "read_ctx": {"add": clock_json(&rc.add_clock, d.n), "rm": clock_json(&rc.rm_clock, d.n)},
+        "derived_add": derived,
     })
 }
 
@@ -57,9 +69,12 @@ pub fn mvreg_reads_from(vals_bag: &Value, clock: &Value) -> Value {
         }
     }
     val.sort();
+    let n = clock.as_array().unwrap().len();
+    let derived: Vec<Value> = (1..=n).map(|a| { let e = crate::eng_orswot::exp_derived(clock, a); json!({"read": e, "read_ctx": e}) }).collect();
     json!({
         "read": {"val": val, "add": clock, "rm": clock},
         "read_ctx": {"add": clock, "rm": clock},
+        "derived_add": derived,
     })
 }
 
@@ -120,6 +135,9 @@ impl Engine for MVRegEng {
     fn reads(s: &S, d: &Dims) -> Value {
         mvreg_reads(s, d)
     }
+    fn reads_light(s: &S, d: &Dims) -> Value {
+        mvreg_reads_opt(s, d, false)
+    }
     fn exp_reads(a: &Value, _d: &Dims) -> Value {
         mvreg_reads_from(&a["vals"], &a["clock"])
     }
@@ -169,7 +187,7 @@ impl Engine for MVRegEng {
         vec!["C07", "C06"]
     }
     fn is_ctx_path(path: &str) -> bool {
-        path.contains(".add") || path.contains(".rm")
+        path.contains(".add") || path.contains(".rm") || path.starts_with("derived")
     }
 }
 
